@@ -33,7 +33,7 @@ for it, r in zip(items, res):
 print("| patch | kind | rules reporting it | checks that exit 1 | edit |")
 print("|---|---|---|---|---|")
 for iid, kind, status, rules, pids, edit, exp in rows:
-    if status != "analysed":
+    if not status.startswith("analysed"):
         print("| %s | %s | (%s) | | %s |" % (iid, kind, status, edit))
     else:
         print("| %s | %s | %s | %s | %s |" % (iid, kind, ", ".join(rules) or "—", ", ".join(pids) or "—", edit.replace("|", "/")))
@@ -44,7 +44,7 @@ json.dump([{"id": r[0], "kind": r[1], "status": r[2], "rules": r[3], "checks": r
 cat = json.load(open("/verif/mutants/catalogue.json"))
 bad = 0
 for iid, kind, status, rules, pids, edit, exp in rows:
-    if kind.startswith("benign") and (pids or status != "analysed"):
+    if kind.startswith("benign") and (pids or not status.startswith("analysed")):
         print("BENIGN ALARM", iid, status, rules, pids, file=sys.stderr); bad += 1
     if kind == "defect":
         miss = [p for p in (exp or []) if p and p not in pids]
